@@ -91,6 +91,15 @@ class ExprMixin:
                         nxt.append((s2, acc + [x]))
             cur = nxt
         out = list(raised)
+        def as_text(x):
+            if isinstance(x, bool):
+                return str(x)
+            if isinstance(x, int):
+                return str(x)
+            if isinstance(x, SInt):
+                return SStr(z3.If(x.z >= 0, z3.IntToStr(x.z), z3.Concat(z3.StringVal("-"), z3.IntToStr(-x.z))))
+            return x
+        cur = [(s, [as_text(x) for x in acc]) for s, acc in cur]
         for s, acc in cur:
             if all(isinstance(x, (str, SStr)) for x in acc):
                 r = ""
